@@ -33,11 +33,11 @@ Section Steps2.
       apply andb_true_iff in Hty as [Hty Hlt]. apply andb_true_iff in Hty as [_ Hidx].
       apply Nat.eqb_eq in Hidx. apply Nat.eqb_eq in Hlt.
       split; [intros H0; discriminate H0|]. split; [intros H0; discriminate H0|].
-      split; [|split; [intros H0; discriminate H0|split; [intros H0; discriminate H0|]]].
+      split; [|split; [intros H0; discriminate H0|split; [intros H0; discriminate H0|split; [|intros H0; discriminate H0]]]].
       + intros _ Hr Htm. rewrite Hfrom. fold n. split; assumption.
       + intros _. rewrite Hfrom. fold n. lia.
     - (* MsgApp *)
-      split; [intros H0; discriminate H0|]. split; [|split; [intros H0; discriminate H0|split; [intros H0; discriminate H0|split; intros H0; discriminate H0]]].
+      split; [intros H0; discriminate H0|]. split; [|split; [intros H0; discriminate H0|split; [intros H0; discriminate H0|split; [intros H0; discriminate H0|split; intros H0; discriminate H0]]]].
       intros _.
       apply andb_true_iff in Hty as [Hty Hcm]. apply andb_true_iff in Hty as [Hty Hseg].
       apply andb_true_iff in Hty as [Hrole Hlt].
@@ -51,13 +51,28 @@ Section Steps2.
       + apply leader_CP; assumption.
     - (* MsgHeartbeat *)
       split; [intros H0; discriminate H0|]. split; [intros H0; discriminate H0|].
-      split; [intros H0; discriminate H0|]. split; [intros H0; discriminate H0|]. split; [|intros H0; discriminate H0].
+      split; [intros H0; discriminate H0|]. split; [intros H0; discriminate H0|]. split; [|split; intros H0; discriminate H0].
       intros _.
       apply andb_true_iff in Hty as [Hrole Hcm].
       assert (Hr : n_role n = Leader) by (destruct (n_role n); try discriminate; reflexivity).
       apply Nat.leb_le in Hcm. rewrite Hterm. split.
       + pose proof (hK5 _ _ _ I id (m_to m) Hr) as H5. unfold nd in H5. fold n in H5. lia.
       + apply leader_CP; [assumption|assumption|fold n; lia].
+    - (* MsgSnap *)
+      split; [intros H0; discriminate H0|]. split; [intros H0; discriminate H0|].
+      split; [intros H0; discriminate H0|]. split; [intros H0; discriminate H0|].
+      split; [intros H0; discriminate H0|]. split; [intros H0; discriminate H0|].
+      intros _.
+      apply andb_true_iff in Hty as [Hty Hents]. apply andb_true_iff in Hty as [Hty Hlt].
+      apply andb_true_iff in Hty as [Hrole Hidx].
+      assert (Hr : n_role n = Leader) by (destruct (n_role n); try discriminate; reflexivity).
+      apply Nat.leb_le in Hidx. apply Nat.eqb_eq in Hlt. apply log_eqb_eq in Hents.
+      pose proof (hW5 _ _ _ I id Hr) as HLL. unfold nd in HLL. fold n in HLL.
+      destruct (hK9 _ _ _ I id) as [H9 _]. unfold nd in H9. fold n in H9.
+      rewrite Hterm. rewrite HLL.
+      split; [|split; [exact Hents|split; [lia|split; [exact Hlt|]]]].
+      + rewrite <- HLL. apply (hW8 _ _ _ I _ id). apply (hA6b _ _ _ I id Hr).
+      + apply leader_CP; assumption.
   Qed.
 
   (* ---------------------------------------------------------------- campaign *)
